@@ -132,6 +132,50 @@ Definition pathjoin (bufsiz : nat) (dir file : bytes) : option bytes :=
 Definition bounded_copy (bufsiz : nat) (s : bytes) : option bytes :=
   if Nat.ltb (length s) bufsiz then Some s else None.
 
+(* ---- compositions of the bounded primitives -------------------------------------------------------
+   Every path mdsort acts on is computed from configuration strings, environment values and file names by nesting
+   strlcpy-with-check and pathjoin.  A path expression records such a nesting; `intended` is the string the nesting is
+   meant to denote (as if buffers were unbounded), `compute` what the bounded primitives deliver. *)
+Inductive pexp :=
+| PLit (s : bytes)
+| PCopy (bufsiz : nat) (e : pexp)
+| PJoin (bufsiz : nat) (d f : pexp).
+
+Fixpoint intended (e : pexp) : bytes :=
+  match e with
+  | PLit s => s
+  | PCopy _ e => intended e
+  | PJoin _ d f => intended d ++ [47] ++ intended f
+  end.
+
+Fixpoint compute (e : pexp) : option bytes :=
+  match e with
+  | PLit s => Some s
+  | PCopy n e => match compute e with Some s => bounded_copy n s | None => None end
+  | PJoin n d f => match compute d, compute f with Some a, Some b => pathjoin n a b | _, _ => None end
+  end.
+
+(* every buffer on the way is large enough for the intended string it is to hold *)
+Fixpoint all_fit (e : pexp) : bool :=
+  match e with
+  | PLit _ => true
+  | PCopy n e => all_fit e && Nat.ltb (length (intended e)) n
+  | PJoin n d f => all_fit d && all_fit f && Nat.ltb (length (intended (PJoin n d f))) n
+  end.
+
+(* the flows of the code, with the buffer sizes of the structures involved *)
+Definition PM : nat := N.to_nat path_max.
+Definition NMAX1 : nat := S (N.to_nat name_max).
+Definition tmpl : bytes := [109; 100; 115; 111; 114; 116; 45; 88; 88; 88; 88; 88; 88; 88; 88].    (* "mdsort-XXXXXXXX" *)
+(* maildir_open: md_root <- strlcpy; maildir_opendir: md_path <- pathjoin(md_root, subdir); message_parse: me_path <- pathjoin(md_path, name) *)
+Definition e_maildir_dir (root sub : bytes) : pexp := PJoin PM (PCopy PM (PLit root)) (PLit sub).
+Definition e_message_path (root sub name : bytes) : pexp := PJoin PM (e_maildir_dir root sub) (PLit name).
+Definition e_message_name (name : bytes) : pexp := PCopy NMAX1 (PLit name).
+(* match_interpolate: mh_path <- strlcpy(interpolated destination); maildir_open on it; message_set_file: me_path <- pathjoin(md_path, generated name) *)
+Definition e_delivered_path (dest sub newname : bytes) : pexp := PJoin PM (PJoin PM (PCopy PM (PCopy PM (PLit dest))) (PLit sub)) (PLit newname).
+(* readenv: ev_tmpdir <- strlcpy; writefd / maildir_stdin: pathjoin(ev_tmpdir, "mdsort-XXXXXXXX") *)
+Definition e_tmp_template (tmpdir : bytes) : pexp := PJoin PM (PCopy PM (PLit tmpdir)) (PLit tmpl).
+
 (* ---- pathslice ---------------------------------------------------------------------------------- *)
 Fixpoint count_slash (s : bytes) : nat :=
   match s with
